@@ -9,7 +9,7 @@ import (
 // Families of input data.
 var Families = []string{
 	"empty", "one", "zeros", "zeroprefix", "run", "random", "xx", "xgapx",
-	"text", "lowent", "periodic", "altseg", "ramp", "nearrep",
+	"text", "lowent", "periodic", "altseg", "ramp", "nearrep", "sandwich",
 }
 
 var words = []string{"the", "quick", "brown", "fox", "jumps", "over", "lazy", "dog", "compression", "dictionary",
@@ -97,6 +97,13 @@ func Data(r *prng.R, family string, n int) []byte {
 			}
 			i += l
 		}
+	case "sandwich":
+		// compressible | incompressible (half of the data) | compressible: with enough
+		// data the LZMA2 writer emits compressed, raw, compressed chunks in that order
+		q := n / 4
+		copy(b[:q], text(r, q))
+		r.Bytes(b[q : n-q])
+		copy(b[n-q:], text(r, q))
 	case "ramp":
 		for i := range b {
 			b[i] = byte(i)
